@@ -810,3 +810,46 @@ SCENARIOS += [
     Scenario("C06.matcher.match", s_match_entry, [(MREL, "SimplePatternMatcher.match"), (MREL, "SimplePatternMatcher.match.get_nodes")], kind="bounded",
              bound="host graph of 3 nodes, pattern with 2 output nodes"),
 ]
+
+
+def s_clone_or(ctx):
+    """clone() of Or patterns (commute() clones the whole pattern): the copy has the same name, tag variable and tag
+    values, its alternatives are the clones in the same order, and cloning NEVER raises — with or without a tag."""
+    from onnxscript.rewriter import _pattern_ir as P
+    I = Interp(ctx)
+    a, b = Tok("alt_a"), Tok("alt_b")
+    a2, b2 = Tok("clone_a"), Tok("clone_b")
+    for t, t2 in ((a, a2), (b, b2)):
+        def cl(m, t2=t2):
+            return t2
+        cl._pyvc_native = True
+        t.clone = cl
+    tagged = ctx.choose(2, "or has a tag variable") == 1
+    custom_tags = tagged and ctx.choose(2, "explicit tag values") == 1
+    named = ctx.choose(2, "or has a name") == 1
+    kind = ctx.choose(2, "BacktrackingOr / OpIdDispatchOr")
+    nm = "orname" if named else None
+    tv = "tag" if tagged else None
+    if kind == 0:
+        orp = I.instantiate(P.BacktrackingOr, [[a, b], nm, tv, (["x", "y"] if custom_tags else None)], {})
+    else:
+        orp = I.instantiate(P.OpIdDispatchOr, [{("", "Add", ""): ("x", a), ("", "Mul", ""): ("y", b)}, nm, tv], {})
+    try:
+        c = I.call(I.getattr(orp, "clone"), [{}])
+    except PyRaise as e:
+        ctx.check("C06.pattern_ir.clone.or_pattern_never_raises", False,
+                  "C06: 'with commute=True the matches are exactly those of the pattern under swaps' — a rule whose pattern contains an OrValue must be commutable")
+        return
+    ctx.check("C06.pattern_ir.clone.or_pattern_never_raises", True, CL)
+    f, g = fields(orp), fields(c)
+    if kind == 0:
+        ok = list(g["_values"]) == [a2, b2] and g["_tag_var"] == f["_tag_var"] and list(g["_tag_values"]) == list(f["_tag_values"]) and g["_name"] == f["_name"]
+    else:
+        m = g["_op_to_pattern"]
+        ok = set(m) == {("", "Add", ""), ("", "Mul", "")} and m[("", "Add", "")] == ("x", a2) and m[("", "Mul", "")] == ("y", b2) \
+            and g["_tag_var"] == f["_tag_var"] and g["_name"] == f["_name"]
+    ctx.check("C06.pattern_ir.clone.or_pattern_copy_has_the_same_name_tags_and_cloned_alternatives", ok, CL)
+
+
+SCENARIOS.append(Scenario("C06.pattern_ir.clone_or", s_clone_or, [(PREL, "BacktrackingOr.clone"), (PREL, "BacktrackingOr.__init__"),
+                                                                  (PREL, "OpIdDispatchOr.clone"), (PREL, "OpIdDispatchOr.__init__")]))
